@@ -41,7 +41,12 @@ mod driver {
             endpoint_id: EndpointId::from_uuid(Uuid::from_u128(u(case, &format!("{p}.uuid")) as u128)),
             external_address: format!("192.168.1.1:{}", 1 + (u(case, &format!("{p}.port")) % 65535)).parse::<NetworkAddress>().unwrap(),
             nat_type: nats[(u(case, &format!("{p}.nat")) % 6) as usize],
-            coordinator_nodes: vec![format!("c{}", u(case, &format!("{p}.coord")))],
+            coordinator_nodes: (0..(u(case, &format!("{p}.clen")) as usize).min(2))
+                .map(|k| {
+                    let n = (u(case, &format!("{p}.coord{k}.len")) as usize).min(2);
+                    (0..n).map(|j| u(case, &format!("{p}.coord{k}.b{j}")) as u8 as char).collect::<String>()
+                })
+                .collect(),
             device_info: if b(case, &format!("{p}.dev_some")) { Some(format!("d{}", u(case, &format!("{p}.dev")))) } else { None },
             last_updated: u(case, &format!("{p}.last_updated")),
         }
